@@ -11,7 +11,7 @@ DRIVE   histories are executed in one long-lived process per history, every retu
         and 16 barrier-released threads make first use of registries / country modules free-running;
         hook events are recorded.
 TRACE   Trace_History.tla (H1) and Trace_Runtime.tla (cache steps A1-A4) judge the recordings."""
-import json, os, random, subprocess, sys, itertools
+import inspect, json, os, random, subprocess, sys, itertools
 from concurrent.futures import ThreadPoolExecutor
 from vlib import lib, run, tlc
 
@@ -165,6 +165,35 @@ def main():
                 ('cn.ric', 'get_birth_place', ['360426199101010071']), ('eu.vat', 'validate', ['XI980780684']), ('at.tin', 'info', ['59-119/9013']),
                 # an IBAN that only the NATIONAL validator rejects (bad CCC check digits): a lookup that answers too early shows
                 ('iban', 'validate', ['ES2121000418450200051331'])]
+    # (d) hidden module state: for EVERY number module  A, B1, A, B2, A, ...  where A = validate(documented number) and the Bs
+    #     are all its public one-argument functions on the number, the number cut by one and by two characters (odd and even
+    #     lengths).  Results that depend on the arguments only make every A equal to the first one (judged within the job).
+    aba = []
+    for name_, mod_ in lib.modules():
+        corp_ = lib.corpus(name_, mod_)
+        if not corp_:
+            continue
+        try:
+            x0 = mod_.compact(corp_[0])
+        except Exception:
+            x0 = corp_[0]
+        a_call = {'mod': name_, 'fn': 'validate', 'args': [x0], 'mutate': False}
+        seq = [a_call]
+        for fn_, f_ in sorted(inspect.getmembers(mod_, inspect.isfunction)):
+            if fn_.startswith('_') or fn_.startswith('check_') or fn_.startswith('search_') or f_.__module__ != mod_.__name__:
+                continue
+            try:
+                req = [q.name for q in inspect.signature(f_).parameters.values() if q.default is q.empty and q.kind in (q.POSITIONAL_ONLY, q.POSITIONAL_OR_KEYWORD)]
+            except (TypeError, ValueError):
+                continue
+            if len(req) != 1:
+                continue
+            for arg in (x0, x0[:-1], x0[:-2]):
+                seq.append({'mod': name_, 'fn': fn_, 'args': [arg], 'mutate': False})
+                seq.append(a_call)
+        aba.append(seq)
+    for i in range(0, len(aba), 12):
+        jobs.append({'kind': 'history', 'selfref': True, 'calls': [c_ for seq in aba[i:i + 12] for c_ in seq]})
     # (a) aliasing: every first-use call, its result mutated in place, the same call again -- and a call of the same function
     #     on a sibling argument in between
     for m_, f_, a_ in firstuse:
@@ -232,7 +261,9 @@ def main():
         outs = list(ex.map(run_runner, jobs))
     # ---- fresh-process oracle: each distinct call, first thing in a pristine interpreter
     distinct = {}
-    for o in outs:
+    for job, o in zip(jobs, outs):
+        if job.get('selfref'):
+            continue
         for r in o['results']:
             distinct.setdefault(json.dumps([r['mod'], r['fn'], r['args']]), None)
     keys = sorted(distinct)
@@ -245,11 +276,17 @@ def main():
     hev, hidx, rev, ridx = [], [], [], []
     nsched_timeouts = 0
     for ji, (job, o) in enumerate(zip(jobs, outs), 1):
+        first_in_job = {}
         for r in o['results']:
             k = json.dumps([r['mod'], r['fn'], r['args']])
-            hev.append({'r': r['r'], 'fresh': distinct[k]})
+            if job.get('selfref'):
+                first_in_job.setdefault(k, r['r'])
+                fresh_r = first_in_job[k]
+            else:
+                fresh_r = distinct[k]
+            hev.append({'r': r['r'], 'fresh': fresh_r})
             hidx.append({'m': r['mod'], 'w': '%s.%s(%s)' % (r['mod'], r['fn'], ', '.join(map(repr, r['args']))), 'how': '%s job %d step %d%s' % (job['kind'], ji, r['step'], ' thread ' + r.get('th', '') if r.get('th') else ''),
-                         'site': '', 'got': r['r'][:300], 'fresh': distinct[k][:300],
+                         'site': '', 'got': r['r'][:300], 'fresh': fresh_r[:300],
                          'history': [(c['mod'], c['fn'], c['args'], c.get('mutate')) for c in (job['calls'] or [x for t in job.get('per_thread', []) for x in t])][:10]})
         nsched_timeouts += o.get('timeouts', 0)
         for e in o.get('hooklog', []):
